@@ -343,6 +343,18 @@ pub async fn instrument_and_load_config(
     load_config(subsys, args, config_file).await
 }
 
+/// Verification hook (off by default): load the configuration from an explicit argument vector,
+/// so that several orchestrator instances can run in one process.
+#[cfg(worterbuch_verif)]
+pub async fn verif_load_config(
+    subsys: &SubsystemHandle,
+    argv: Vec<String>,
+) -> Result<(Config, mpsc::Receiver<(Peers, PeerInfo, Option<usize>)>)> {
+    let args = Args::try_parse_from(argv).into_diagnostic()?;
+    let config_file = load_config_file(&args.config_path).await?;
+    load_config(subsys, args, config_file).await
+}
+
 // #[instrument(skip(subsys), err)]
 async fn load_config(
     subsys: &SubsystemHandle,
